@@ -665,6 +665,8 @@ def gen_config(repo, out):
     t += "\n].\n"
     t += f"Definition legal_color_bits : list Z := {coq_list(['0%Z'] + [coq_z(i) for i in sp_ints])}.\n"
     t += f"Definition subspace_limit : Z := {coq_z(sub_ints[0])}.\n"
+    t += f"Definition subspace_default : Z * Z := ({coq_z(sub_b)}, {coq_z(sub_e)}).\n"
+    t += f"Definition third_diacritic_bits : Z := {coq_z(bits_ints[0])}.\n"
     t += "(* TransmissionMedium.from_string: accepted names -> .value of the member *)\n"
     t += "Definition medium_names : list (list (list N) * list N) := [\n"
     t += ";\n".join(f"  ({coq_list(coq_str(x) for x in names)}, {coq_str(v)})" for names, v in medium_names)
